@@ -15,7 +15,7 @@ REPO = os.environ.get("VERIF_REPO", "/repo")
 
 
 def main():
-    seeds = sys.argv[1:] or sorted(d for d in os.listdir(os.path.join(V, "seeded")) if os.path.isdir(os.path.join(V, "seeded", d)) and not d.startswith("benign_"))
+    seeds = sys.argv[1:] or sorted(d for d in os.listdir(os.path.join(V, "seeded")) if os.path.isdir(os.path.join(V, "seeded", d)) and not d.startswith("benign"))
     if subprocess.run(["git", "-C", REPO, "status", "--porcelain"], capture_output=True, text=True).stdout.strip():
         print("refusing: /repo working tree is not clean")
         return 2
